@@ -17,6 +17,7 @@ import io
 import sys
 
 from rich.console import Console
+from rich.file_proxy import FileProxy
 from rich.live import Live
 from rich.progress import Progress, ProgressColumn
 from rich.segment import Segment
@@ -338,7 +339,15 @@ class Session:
         elif k == "R":
             self.live_obj().refresh() if self.cfg.kind == "status" else o.refresh()
         elif k == "P":
-            _emit_user(self.console, op[2], op[1], self.style)
+            how = op[2]
+            if how in ("py", "py1", "py2", "pye"):
+                # a write to sys.stdout / sys.stderr reaches the console only while that stream really is
+                # redirected (a start() that failed and cleaned up, or a stop(), leaves the plain stream);
+                # otherwise the same lines are printed on the console directly, which is what the model is told
+                stream = sys.stderr if how == "pye" else sys.stdout
+                if not isinstance(stream, FileProxy):
+                    how = "seg"
+            _emit_user(self.console, how, op[1], self.style)
         elif k == "U":
             if self.cfg.kind == "live":
                 o.update(FrameR(op[1], self.faults, self.style), refresh=op[2])
